@@ -116,7 +116,8 @@ def hier_prox_row(v, u, alpha, M):
             mid = lo + 1.0 if np.isinf(hi) else 0.5 * (lo + hi)
             S = au > M * mid
             cand = (nv - alpha + M * au[S].sum()) / (1 + S.sum() * M * M)     # root of the derivative on this piece
-            slack = 1e-12 * max(1.0, abs(cand))
+            # the acceptance slack must be RELATIVE to the scale of the piece (pieces can be 1e-9 wide next to r ~ 1e-8)
+            slack = 1e-12 * max(abs(cand), abs(lo), 0.0 if np.isinf(hi) else abs(hi))
             if lo - slack <= cand <= hi + slack:
                 r = min(max(cand, lo), hi)
                 break
